@@ -6,6 +6,7 @@ import (
 	"strings"
 
 	"github.com/gardenbed/emerge/internal/ebnf/parser/spec"
+	"github.com/gardenbed/emerge/internal/regex/parser/ast"
 	"github.com/gardenbed/emerge/internal/regex/parser/nfa"
 )
 
@@ -36,6 +37,24 @@ var Ops = []struct {
 	{"pattern-negated-class", func() string { return patternDigest(`\P{Lu}[^[:alpha:]]+\D`) }},
 	{"parse-bad", func() string { return parseDigest(specBad, false, false) }},
 	{"parse-three-lalr", func() string { return parseDigest(specThree, false, true) }},
+	// every kind of atom that consults a package-level character table, through both pattern front ends
+	{"ast-negated-unicode", func() string { return astDigest(`\P{L}+\P{Lu}\P{Greek}`) }},
+	{"ast-any-nondigit", func() string { return astDigest(`a.c\D\S\W`) }},
+	{"ast-classes", func() string { return astDigest(`[^[:alpha:]]\p{Ll}[[:word:]]\w[^a-c]`) }},
+	{"nfa-any-nonword", func() string { return patternDigest(`a.c\W\S\P{Ll}[^x]`) }},
+	{"parse-four-dfa", func() string { return parseDigest(specFour, true, false) }},
+}
+
+const specFour = "grammar four ;\nNEG = /\\P{Lu}+x/ ;\nANY = /a.c/ ;\nNOND = /\\D\\d/ ;\nWS = $WS ;\nstart = NEG ANY NOND WS ;\n"
+
+func astDigest(p string) string {
+	a, err := ast.Parse(p)
+	if err != nil {
+		return "ERROR " + err.Error()
+	}
+	// the raw numbering of ToDFA is arbitrary (it follows a shuffled set iteration); the observable is the automaton
+	// up to renaming, so it is minimised and renumbered canonically first
+	return a.ToDFA().Minimize().EliminateDeadStates().ReindexStates().String()
 }
 
 func patternDigest(p string) string {
